@@ -1,7 +1,131 @@
-(* placeholder while the proofs are being written *)
-From Coq Require Import ZArith.
-From V Require Import C16.Model C16.Spec.
+(* C16 — Decimal text conversion preserves the numeric value.
+   Property theorems only.  The model (C16/Model.v: dec_string = Decimal.String, set_string = Decimal.SetString,
+   sanity = the check of NewDecimal) is compared with /repo/asetypes/decimal.go on every run; the notions of
+   numeral, value, shape and representability are those of the independent specification C16/Spec.v.
+   p = precision, s = scale, i = unscaled integer (the decimal's value is i / 10^s). *)
+From Coq Require Import ZArith List Bool QArith.
+Import ListNotations.
+From V Require Import Base.Tree Base.Bytes C16.Model C16.Spec C16.Digits C16.ProofsParse C16.ProofsString.
 Open Scope Z_scope.
-Example C16_placeholder : dec_string 5 2 (-12345) = [45; 49; 50; 51; 46; 52; 53]%Z.
-Proof. vm_compute. reflexivity. Qed.
-Print Assumptions C16_placeholder.
+
+(* (1) Round trip: for every precision >= 1 (in particular 1..38), every scale up to the precision and every
+   value with at most that many digits, parsing the printed text yields the same decimal. *)
+Theorem C16_roundtrip : forall p s i, 0 <= s <= p -> 1 <= p -> Z.abs i < 10 ^ p ->
+  set_string p s (dec_string p s i) = Ok i.
+Proof. exact string_roundtrip. Qed.
+Theorem C16_roundtrip_new : forall p s i, 0 <= s <= p -> 1 <= p <= 38 -> Z.abs i < 10 ^ p ->
+  new_decimal_string p s (dec_string p s i) = Ok i.
+Proof.
+  intros p s i Hs Hp Hi. unfold new_decimal_string.
+  replace (sanity p s) with true by (symmetry; apply sanity_iff; split; [exact Hs|apply Hp]).
+  apply string_roundtrip; [exact Hs|apply Hp|exact Hi].
+Qed.
+
+(* (2) Shape: optional '-', integer part without leading zeros (unless the single digit 0), a point, fraction
+   without trailing zeros (unless the single digit 0), at least one digit on each side, nothing else, no "-0.0". *)
+Theorem C16_shape : forall p s i, 0 <= s <= p -> 1 <= p -> Z.abs i < 10 ^ p ->
+  shape_ok (dec_string p s i) = true.
+Proof. exact string_shape. Qed.
+
+(* (3) Exact value: the text is a (proper) numeral denoting exactly i / 10^s — as a cross-multiplied integer
+   equation and as an equation between rationals. *)
+Theorem C16_value : forall p s i, 0 <= s <= p -> 1 <= p -> Z.abs i < 10 ^ p ->
+  exists n, parse_numeral (dec_string p s i) = Some n /\ proper n = true /\ 0 <= fdig n /\
+            mant n * 10 ^ s = i * 10 ^ fdig n.
+Proof. exact string_value. Qed.
+Theorem C16_value_Q : forall p s i, 0 <= s <= p -> 1 <= p -> Z.abs i < 10 ^ p ->
+  exists n, parse_numeral (dec_string p s i) = Some n /\ (numeral_Q n == inject_Z i / inject_Z (10 ^ s))%Q.
+Proof. exact string_value_Q. Qed.
+
+(* (4) Parsing, for ALL texts (any code points): the answer of SetString is admitted by the specification —
+   junk is an error, an unrepresentable numeral is an error, a proper representable numeral yields exactly
+   numeral * 10^s, and a numeral without integer digits (".5") is either rejected or given exactly its value. *)
+Theorem C16_parse_all : forall p s text, 0 <= s -> 0 <= p ->
+  parse_ok p s text (out_of (set_string p s text)) = true.
+Proof. exact parse_all. Qed.
+Theorem C16_parse_exact : forall p s text n r, 0 <= s -> 0 <= p ->
+  parse_numeral text = Some n -> proper n = true -> repr p s n = Some r -> set_string p s text = Ok r.
+Proof. exact representable_exact. Qed.
+Theorem C16_parse_unrepresentable : forall p s text n, 0 <= s -> 0 <= p ->
+  parse_numeral text = Some n -> repr p s n = None -> set_string p s text = Err.
+Proof. exact unrepresentable_rejected. Qed.
+Theorem C16_parse_junk : forall p s text, 0 <= s -> 0 <= p -> parse_numeral text = None -> set_string p s text = Err.
+Proof. exact junk_rejected. Qed.
+(* nothing is ever accepted with another value *)
+Theorem C16_parse_sound : forall p s text v, 0 <= s -> 0 <= p -> set_string p s text = Ok v ->
+  exists n, parse_numeral text = Some n /\ repr p s n = Some v.
+Proof. exact accepted_exact. Qed.
+(* representability is what it should be: r represents the numeral iff r / 10^s is its value and r has <= p digits *)
+Theorem C16_repr_iff : forall p s n r, 0 <= fdig n ->
+  (repr p s n = Some r <-> mant n * 10 ^ s = r * 10 ^ fdig n /\ Z.abs r < 10 ^ p).
+Proof.
+  intros p s n r Hf. split; [apply repr_sound; exact Hf|]. intros [E H]. apply repr_exact; assumption.
+Qed.
+
+(* (5) The same for numerals written out: spaces, sign, integer digits a (at least one), point, fraction digits
+   b' followed by any number of zeros.  With at most s fraction digits (after dropping the zeros) the result is
+   exactly numeral * 10^s when that has at most p digits, otherwise an error. *)
+Theorem C16_written_point : forall p s w1 w2 sg a b' k, 0 <= s -> 0 <= p -> allspace w1 -> allspace w2 ->
+  digits a -> a <> [] -> digits b' -> zlen b' <= s ->
+  set_string p s (w1 ++ (sign_text sg ++ a ++ 46 :: b' ++ repeat 48 k) ++ w2) =
+  let v := sgn_val (is_minus sg) (val_digits (a ++ b')) * 10 ^ (s - zlen b') in
+  if Z.abs v <? 10 ^ p then Ok v else Err.
+Proof. exact written_point. Qed.
+Theorem C16_written_int : forall p s w1 w2 sg a, 0 <= s -> 0 <= p -> allspace w1 -> allspace w2 ->
+  digits a -> a <> [] ->
+  set_string p s (w1 ++ (sign_text sg ++ a) ++ w2) =
+  let v := sgn_val (is_minus sg) (val_digits a) * 10 ^ s in
+  if Z.abs v <? 10 ^ p then Ok v else Err.
+Proof. exact written_int. Qed.
+(* more fraction digits than the scale (last one non-zero): error *)
+Theorem C16_written_toofrac : forall p s w1 w2 sg a b0 c k, 0 <= s -> 0 <= p -> allspace w1 -> allspace w2 ->
+  digits a -> digits b0 -> 49 <= c <= 57 -> s < zlen (b0 ++ [c]) ->
+  set_string p s (w1 ++ (sign_text sg ++ a ++ 46 :: (b0 ++ [c]) ++ repeat 48 k) ++ w2) = Err.
+Proof. exact written_toofrac. Qed.
+(* more than one point anywhere: error *)
+Theorem C16_two_points : forall p s x y z, set_string p s (x ++ 46 :: y ++ 46 :: z) = Err.
+Proof. exact two_points_err. Qed.
+
+(* (6) Construction: NewDecimal accepts exactly 0 <= scale <= precision <= 38. *)
+Theorem C16_sanity : forall p s, sanity p s = true <-> 0 <= s <= p /\ p <= 38.
+Proof. exact sanity_iff. Qed.
+Theorem C16_sanity_spec : forall p s, sanity p s = valid_ps p s.
+Proof. exact sanity_valid. Qed.
+
+(* non-vacuity and corner cases *)
+Example C16_ex_string : dec_string 5 2 (-12345) = [45; 49; 50; 51; 46; 52; 53]            (* "-123.45" *)
+  /\ dec_string 5 0 5 = [53; 46; 48] /\ dec_string 5 5 (-5) = [45; 48; 46; 48; 48; 48; 48; 53]  (* "5.0", "-0.00005" *)
+  /\ dec_string 38 19 (10 ^ 38 - 1) = repeat 57 19 ++ [46] ++ repeat 57 19.
+Proof. vm_compute. repeat split. Qed.
+Example C16_ex_precision0 : dec_string 0 0 0 = [48; 46; 48] /\ set_string 0 0 [48; 46; 48] = Ok 0 /\ set_string 0 0 [49] = Err.
+Proof. vm_compute. repeat split. Qed.
+Example C16_ex_parse : set_string 5 2 [32; 43; 49; 46; 53; 48; 48; 32] = Ok 150              (* " +1.500 " *)
+  /\ set_string 5 2 [49; 46; 50; 51; 52] = Err                                                (* "1.234" *)
+  /\ set_string 2 0 [49; 50; 51; 52] = Err                                                    (* "1234" *)
+  /\ set_string 5 2 [49; 46; 50; 46; 51] = Err                                                (* "1.2.3" *)
+  /\ set_string 5 2 [46; 45; 53] = Err                                                        (* ".-5" *)
+  /\ set_string 5 0 [53; 46; 48] = Ok 5.                                                      (* "5.0" at scale 0 *)
+Proof. vm_compute. repeat split. Qed.
+Example C16_ex_numeral : parse_numeral [45; 48; 46; 50; 53] = Some {| nneg := true; ipart := [48]; fpart := [50; 53] |}
+  /\ repr 5 2 {| nneg := true; ipart := [48]; fpart := [50; 53] |} = Some (-25)
+  /\ repr 5 1 {| nneg := true; ipart := [48]; fpart := [50; 53] |} = None
+  /\ parse_numeral [46; 45; 53] = None /\ parse_numeral [] = None /\ parse_numeral [46] = None.
+Proof. vm_compute. repeat split. Qed.
+
+Print Assumptions C16_roundtrip.
+Print Assumptions C16_roundtrip_new.
+Print Assumptions C16_shape.
+Print Assumptions C16_value.
+Print Assumptions C16_value_Q.
+Print Assumptions C16_parse_all.
+Print Assumptions C16_parse_exact.
+Print Assumptions C16_parse_unrepresentable.
+Print Assumptions C16_parse_junk.
+Print Assumptions C16_parse_sound.
+Print Assumptions C16_repr_iff.
+Print Assumptions C16_written_point.
+Print Assumptions C16_written_int.
+Print Assumptions C16_written_toofrac.
+Print Assumptions C16_two_points.
+Print Assumptions C16_sanity.
+Print Assumptions C16_sanity_spec.
